@@ -593,7 +593,12 @@ def resolve_anchors(fnode, contract):
             if text == "return":
                 cands = [s for s in stmts if isinstance(s, ast.Return)]
             else:
-                norm = ast.unparse(ast.parse(text).body[0]) if text.strip() else ""
+                try:
+                    norm = ast.unparse(ast.parse(text).body[0]) if text.strip() else ""
+                except SyntaxError:
+                    # header line of a compound statement ("for x in xs:", "if c:", "while c:") - matched against
+                    # _head() as written
+                    norm = text.strip()
                 cands = [s for s in stmts if _head(s) == norm]
             if nth >= len(cands):
                 missing.append(anchor)
